@@ -372,9 +372,8 @@ def make_cases(ctx):
         extra4 = [{"dedup": False}, {"chunk": 2}]
         tie_n = [2, 3]
     else:
-        plan = [(1, 3), (2, 3), (3, 3), (4, 2), (5, 0)]
-        extra4 = [{"dedup": False}, {"rollup": False}, {"extras": True}, {"fmt": "parquet"}, {"decoys": False}, {"chunk": 2},
-                  {"chunk": 3, "extras": "same"}]
+        plan = [(1, 3), (2, 3), (3, 2), (4, 1), (5, 0)]
+        extra4 = [{"dedup": False}, {"chunk": 2}, {"chunk": 3, "extras": "same", "fmt": "parquet"}]
         tie_n = [2, 3, 4]
     nmax = plan[-1][0]
     for n, maxdev in plan:
